@@ -63,3 +63,166 @@ Proof.
     + left. inversion E3. split; reflexivity.
   - apply bind_inv in E2. destruct E2 as [[wd [u3 [_ E2]]]|[e3 [_ E2]]]; discriminate.
 Qed.
+
+(* what the claim does to the world *)
+Lemma claim_facts : forall T p w w1 r,
+  RInv T w -> In p T -> cache_has_file (w_new w) p = false -> isdir (w_fs w) p = false ->
+  bf_claim p w = (w1, r) ->
+  r = inl None /\
+  (forall a, lookup (view_fs w1) a = lookup (try_remove (view_fs w) p) a) /\
+  lookup (w_fs w1) p = None /\ (forall q, q <> p -> lookup (w_fs w1) q = lookup (w_fs w) q) /\
+  w_new w1 = claim_cache (w_new w) p /\ w_old w1 = w_old w /\ w_cachefile w1 = w_cachefile w /\
+  w_bd w1 = w_bd w.
+Proof.
+  intros T p w w1 r HR Hin Hc Hnd H.
+  destruct (claim_steps T p w w1 r HR Hin Hc H) as (Hr & HRa & Hcase).
+  split; [exact Hr|].
+  pose proof (RInv_X _ _ HR) as HX.
+  destruct (x_tgt _ _ HX p Hin) as (Hne & _ & _).
+  pose proof (view_claim_start T w p HX Hin Hne Hnd) as Hv. cbv zeta in Hv.
+  change (forall a, lookup (view_fs (claim_world p w)) a = lookup (try_remove (view_fs w) p) a) in Hv.
+  destruct Hcase as [[Hf ->]|[Hf [bb Hb]]].
+  - split; [exact Hv|]. split; [|split; [intros; reflexivity|repeat split]].
+    cbn [claim_world w_fs set_new]. unfold isfile in Hf. unfold isdir in Hnd.
+    destruct (lookup (w_fs w) p) as [[g|]|]; try discriminate; reflexivity.
+  - assert (Hh: hid (claim_world p w) p = true).
+    { unfold hid, cache_has_file, cache_get_file, claim_world, claim_cache. cbn [w_new set_new c_files cache_with].
+      rewrite files_get_set_same. apply orb_true_r. }
+    destruct (view_back_up_target T (claim_world p w) p w1 bb HRa Hin Hf Hh Hb) as (B1 & B2 & B3 & B4 & B5 & B6 & B7 & _).
+    split; [intro a; rewrite B1; apply Hv|]. split; [exact B2|]. split; [exact B3|].
+    split; [exact B4|]. split; [exact B5|]. split; [exact B6|exact B7].
+Qed.
+
+(* ------------------------------------------------------------------ try_remove *)
+Lemma try_remove_at : forall fs p, isdir fs p = false -> lookup (try_remove fs p) p = None.
+Proof.
+  intros fs p Hnd. destruct (try_remove_char fs p p) as [E|(_ & E & _)]; [|exact E].
+  rewrite E. unfold try_remove in E. unfold isdir in Hnd. unfold isfile in E.
+  destruct (lookup fs p) as [[g|]|] eqn:El; [|discriminate|reflexivity].
+  exfalso. destruct (remove fs p) as [fs'|e] eqn:Er.
+  - apply remove_frame in Er. destruct Er as (_ & Hn & _). congruence.
+  - unfold remove in Er. rewrite El in Er. destruct p; [cbn in El; discriminate|discriminate].
+Qed.
+
+Lemma try_remove_dir : forall fs p x, lookup fs x = Some NDir -> lookup (try_remove fs p) x = Some NDir.
+Proof.
+  intros fs p x H. destruct (try_remove_char fs p x) as [E|(_ & _ & [g E])]; congruence.
+Qed.
+
+Lemma claim_trel : forall W a b p, trel W a b -> isdir a p = false ->
+  trel (p :: W) (try_remove a p) (try_remove b p).
+Proof.
+  intros W a b p H Hnd x. cbn [mem_path]. destruct (path_eqb p x) eqn:E.
+  - apply path_eqb_eq in E. subst x. cbn [orb].
+    rewrite (try_remove_at a p Hnd). rewrite (try_remove_at b p); [exact I|].
+    rewrite <- (trel_isdir W a b p H). exact Hnd.
+  - apply path_eqb_neq in E. cbn [orb].
+    rewrite (try_remove_frame a p x), (try_remove_frame b p x) by congruence. apply H.
+Qed.
+
+Lemma view_not_dir : forall w p, isdir (w_fs w) p = false -> isdir (view_fs w) p = false.
+Proof.
+  intros w p H. unfold isdir. destruct (lookup (view_fs w) p) as [[g|]|] eqn:E; try reflexivity.
+  apply view_dir_disk in E. unfold isdir in H. rewrite E in H. discriminate.
+Qed.
+
+Lemma vis_log_invoke : forall f t a k l, vis_log (LInvoke f t a k :: l) = LInvoke f t a k :: vis_log l.
+Proof. reflexivity. Qed.
+
+Lemma unclaimed_get : forall c p, cache_has_file c p = false -> cache_get_file c p = None.
+Proof. intros c p H. unfold cache_has_file in H. unfold cache_get_file. destruct (files_get (c_files c) p); [discriminate|reflexivity]. Qed.
+
+(* ------------------------------------------------------------------ Sim3 *)
+Lemma claim_sim3 : forall W w s0 p f sa skw w1,
+  Sim3 W w s0 -> cache_has_file (w_new w) p = false -> isdir (w_fs w) p = false ->
+  (forall a, lookup (view_fs w1) a = lookup (try_remove (view_fs w) p) a) ->
+  lookup (w_fs w1) p = None -> (forall q, q <> p -> lookup (w_fs w1) q = lookup (w_fs w) q) ->
+  w_new w1 = claim_cache (w_new w) p -> w_old w1 = w_old w -> w_cachefile w1 = w_cachefile w ->
+  vis_log (w_log w1) = vis_log (w_log w) ->
+  Sim3 (p :: W) (bf_invoke_world p f sa skw w1) (CoreLaws3.core_start s0 p f sa skw).
+Proof.
+  intros W w s0 p f sa skw w1 [S1 S2 S3 S4 S5 S6 S7 S8 S9 S10] Hc Hnd Hv Hp Hoth Hnew Hold Hcf Hlog.
+  constructor; unfold bf_invoke_world, CoreLaws3.core_start, klog;
+    cbn [ks_with k_fs k_stale k_claimedF k_claimedS k_log k_cachefile k_old k_vers k_newF k_newS
+         set_log w_fs w_new w_old w_cachefile w_log].
+  - change (trel (p :: W) (view_fs (set_log (LInvoke f (Some p) sa skw :: w_log w1) w1)) (try_remove (k_fs s0) p)).
+    apply (trel_ext_l (p :: W) (try_remove (view_fs w) p)).
+    + intro a. rewrite <- Hv. f_equal.
+    + apply claim_trel; [exact S1|apply view_not_dir; exact Hnd].
+  - rewrite Hcf. exact S2.
+  - rewrite Hold. exact S3.
+  - intro g. rewrite Hnew. unfold func_version, claim_cache. cbn [c_fvers cache_with]. apply S4.
+  - intro x. cbn [mem_path]. rewrite Hnew. unfold claim_cache.
+    rewrite (cache_has_file_set _ _ p None x _ _ _ eq_refl). rewrite S5. f_equal. apply path_eqb_sym.
+  - intro k. rewrite Hnew. unfold cache_has_subbuild, claim_cache. cbn [c_subs cache_with]. apply S6.
+  - rewrite !vis_log_invoke. f_equal. rewrite Hlog. exact S7.
+  - intro x. rewrite Hnew. unfold claim_cache. rewrite (cache_get_file_set _ _ p None x _ _ _ eq_refl).
+    destruct (path_eqb x p) eqn:E.
+    + apply path_eqb_eq in E. subst x. specialize (S8 p). rewrite (unclaimed_get _ _ Hc) in S8.
+      destruct (kf_get (k_newF s0) p); [contradiction|exact I].
+    + apply S8.
+  - intro k. rewrite Hnew. unfold claim_cache. cbn [c_subs cache_with]. apply S9.
+  - intro x. rewrite stale_get_del. destruct (path_eqb p x) eqn:E.
+    + apply path_eqb_eq in E. subst x. rewrite Hp. reflexivity.
+    + rewrite Hoth by (intro K; subst x; rewrite path_eqb_refl in E; discriminate).
+      rewrite Hold, Hnew. unfold claim_cache. rewrite (cache_has_file_set _ _ p None x _ _ _ eq_refl).
+      rewrite (path_eqb_sym x p), E. cbn [orb]. apply S10.
+Qed.
+
+(* ------------------------------------------------------------------ Sim4c *)
+Lemma claim_sim4 : forall T W w s0 p f sa skw w1,
+  SimSetup T W p w s0 -> RInv2' (p :: T) w1 ->
+  (forall a, lookup (view_fs w1) a = lookup (try_remove (view_fs w) p) a) ->
+  lookup (w_fs w1) p = None -> (forall q, q <> p -> lookup (w_fs w1) q = lookup (w_fs w) q) ->
+  w_new w1 = claim_cache (w_new w) p -> w_old w1 = w_old w -> w_cachefile w1 = w_cachefile w ->
+  w_bd w1 = w_bd w -> vis_log (w_log w1) = vis_log (w_log w) ->
+  Sim4c (p :: T) (p :: W) (bf_invoke_world p f sa skw w1) (CoreLaws3.core_start s0 p f sa skw).
+Proof.
+  intros T W w s0 p f sa skw w1 (HP & HL & Hc & Hnd) HR2 Hv Hp Hoth Hnew Hold Hcf Hbd Hlog.
+  destruct HP as [P1 P2 P3 P4 P5 P6 P7 P8 P9 P10 P11 P12].
+  split.
+  - constructor.
+    + apply (claim_sim3 W w s0 p f sa skw w1); assumption.
+    + apply (RInv2_fields (fun _ => True) (p :: T) w1); [exact HR2|..]; reflexivity.
+    + exact P3.
+    + exact P4.
+    + intro x. unfold bf_invoke_world. cbn [w_bd set_log]. rewrite Hbd. apply P5.
+    + apply wf_try_remove. exact P6.
+    + intros t Ht. apply try_remove_dir. apply P7. exact Ht.
+    + intros x Hx. apply try_remove_dir. apply P8. unfold bf_invoke_world in Hx. cbn [w_cachefile set_log] in Hx.
+      rewrite Hcf in Hx. exact Hx.
+    + intros x Hx. unfold bf_invoke_world. cbn [w_cachefile set_log]. rewrite Hcf. apply P9. exact Hx.
+    + intros q v Hq. unfold bf_invoke_world in Hq. cbn [w_new set_log] in Hq. rewrite Hnew in Hq. apply (P10 q v Hq).
+    + unfold bf_invoke_world. cbn [w_new set_log]. rewrite Hnew. exact P11.
+    + exact P12.
+  - intros x Hx. unfold bf_invoke_world. cbn [w_new set_log]. rewrite Hnew. unfold claim_cache.
+    rewrite (cache_has_file_set _ _ p None x _ _ _ eq_refl).
+    destruct Hx as [->|Hx]; [rewrite path_eqb_refl; reflexivity|].
+    rewrite (HL x Hx). apply orb_true_r.
+Qed.
+
+(* ------------------------------------------------------------------ the statement *)
+Theorem claim_ok : claim_statement.
+Proof.
+  intros T W w s0 p f sa skw w1 r HS Htg H.
+  pose proof HS as (HP & HL & Hc & Hnd).
+  pose proof (s4_rinv _ _ _ _ HP) as HR2. pose proof (RInv2_R' _ _ HR2) as HR.
+  destruct (claim_facts (p :: T) p w w1 r HR (or_introl eq_refl) Hc Hnd H)
+    as (Hr & Hv & Hp & Hoth & Hnew & Hold & Hcf & Hbd).
+  assert (HR1: RInv (p :: T) w1).
+  { destruct (bf_claim_RInv (p :: T) p w w1 r HR (or_introl eq_refl) H) as [(A & _)|(A & _)]; exact A. }
+  assert (HR21: RInv2' (p :: T) w1).
+  { apply (RInv2_step (p :: T) (p :: T) w w1 HR2); [|exact HR1].
+    apply (bf_claim_gl walk_fuel _ _ _ _ H). }
+  assert (Hlog: vis_log (w_log w1) = vis_log (w_log w)).
+  { destruct vlog as (_ & V & _). apply (V p w w1 r H). }
+  split; [exact Hr|]. split.
+  - apply (claim_sim4 T W w s0 p f sa skw w1); assumption.
+  - split; [|split; [exact Hoth|split; [exact Hp|exact Hold]]].
+    intro y. unfold inprog. rewrite Hnew. unfold claim_cache. cbn [c_files cache_with].
+    destruct (list_eq_dec string_dec y p) as [->|Hne].
+    + rewrite files_get_set_same. split; [intros _; right; reflexivity|reflexivity].
+    + rewrite files_get_set_other by exact Hne. split; [intro K; left; exact K|intros [K|K]; [exact K|contradiction]].
+Qed.
+
+Print Assumptions claim_ok.
